@@ -522,3 +522,32 @@ register(Contract(
                 pre=lambda a: a.self.output_iter <= a.self.max_iter)],
     ensures={'returns-self': returns_self, 'components_-shape': lambda a, r: z3.And(comp(a).dim(1) == a.triplets.dim(2), comp(a).dim(0) <= a.triplets.dim(2))},
     raises=dict(FIT_RAISES), modifies={'components_', 'preprocessor_', 'n_features_in_', 'n_iter_'}, prop=['C03', 'C17']))
+
+
+# ------------------------------------------------------------------------------------------- C10: LMNN clauses
+from .loops import at_break, zero_exit
+from .supervised_calls import calls as _calls
+
+zero_exit('lmnn:LMNN.fit', 0)
+
+
+@at_break('lmnn:LMNN.fit', 1, 'True')
+def _lmnn_accept_only_descent(v, head):
+  """the backtracking loop is left only with a candidate whose objective does not exceed the current one:
+  every ACCEPTED iterate has a non-increasing objective"""
+  return v.objective_next <= v.objective
+
+
+def _lmnn_zero_iterations_give_init(a, r):
+  """max_iter <= 2 means zero optimiser iterations (the loop is range(2, max_iter)): the result is the documented initialisation"""
+  ev = a.path.events
+  ini = _calls(ev, '_util:_initialize_components')
+  cur = a.self.raw('components_')
+  if not ini or not isinstance(cur, VArr):
+    return z3.BoolVal(False)
+  same = isinstance(ini[0][3], VArr) and ini[0][3].loc == cur.loc
+  return z3.Implies(a.self.max_iter <= 2, z3.BoolVal(same))
+
+
+REGISTRY['lmnn:LMNN.fit'].ensures['zero-optimiser-iterations-return-the-initialisation'] = _lmnn_zero_iterations_give_init
+REGISTRY['lmnn:LMNN.fit'].prop.append('C10') if 'C10' not in REGISTRY['lmnn:LMNN.fit'].prop else None
